@@ -163,6 +163,11 @@ func (f *Frame) specCall(st *State, e *ast.CallExpr, kind string) []*Term {
 			}
 		}
 		wfT := And(append(wf, work.pc)...)
+		if c.inSpecAssume > 0 {
+			// assumed clause: the well-formedness facts collected while evaluating the body hold in every
+			// well-formed state, so they are not kept as antecedents (only the bound variables' ranges are)
+			wfT = And(wf...)
+		}
 		if kind == "__forall" {
 			return []*Term{Forall(bvs, Implies(wfT, body))}
 		}
@@ -317,6 +322,12 @@ func (f *Frame) modFromLoc(loc Loc, text string) []modItem {
 		return []modItem{{heap: f.fieldHeapName(l.st, si.Fields[l.idx].Name), ref: l.ref}}
 	case LField:
 		return f.modFromLoc(l.base, text)
+	case LCond:
+		return append(f.modFromLoc(l.a, text), f.modFromLoc(l.b, text)...)
+	case LGlobal:
+		return []modItem{{heap: "G!" + l.name, whole: true}}
+	case LVar:
+		return nil
 	}
 	panic(unsupported{"modifies: not a heap location: " + text})
 }
